@@ -251,6 +251,19 @@ def replay_witnesses(rep, binpath, wd):
             rep.notes.append("stale finding " + desc)
 
 
+def replay_one_witness(o, wd):
+    from . import specgen
+    binpath = build_harness()
+    pf = os.path.join(wd, "progs.json")
+    with open(pf, "w") as fh:
+        json.dump([specgen.STD_PROG], fh)
+    w = o["witness"]
+    r = run_harness(binpath, "exec", [{"id": 0, "prog": 0, "spec": w["spec"], "env": w["env"], "argv": w["argv"]}], wd, env={"HARNESS_PROGS": pf}, shards=1, deadline_ms=3000)[0]
+    got = "dead" if (r.get("hang") or r.get("crash")) else "specerr" if r.get("specerr") else "ran" if r.get("ran") else "usage" if r.get("err") else "other"
+    print("replay: %s spec=%r env=%s argv=%s -> %s (repaired behaviour: %s)" % (o["finding"], w["spec"], w["env"], w["argv"], got, w["want"]))
+    return 0 if got == w["want"] else 1
+
+
 class Report:
     def __init__(self, prop, tier, level):
         self.prop, self.tier, self.level = prop, tier, level
